@@ -345,6 +345,13 @@ func failingCase(fault string, k int, queue string) harness.Case {
 			switch fault {
 			case "never-accepts":
 				n3.lis.Refuse = true
+			case "starts-late":
+				// unreachable for the first k seconds (connection refused), healthy afterwards
+				n3.lis.Refuse = true
+				go func() {
+					time.Sleep(time.Duration(k) * time.Second)
+					n3.lis.Refuse = false
+				}()
 			case "never-reads":
 				n3.lis.OnAccept = func(raw *netlib.Conn) {
 					raw.ReadHalf().Cap = 4096
@@ -391,6 +398,11 @@ func failingCase(fault string, k int, queue string) harness.Case {
 			}
 			settle(5 * time.Second)
 			compare(c, fmt.Sprintf("failing-peer %s k=%d: traffic 1->2", fault, k), w.nodes[2].col.Snapshot(), 1, want, map[string]interface{}{"fault": fault, "k": k})
+			if fault == "starts-late" {
+				// everything that was accepted for sending while the peer was unreachable stays
+				// queued and arrives, exactly once and in order, once the peer is up
+				compare(c, fmt.Sprintf("failing-peer %s k=%d: traffic 1->3", fault, k), w.nodes[3].col.Snapshot(), 1, want, map[string]interface{}{"fault": fault, "k": k})
+			}
 			if fault == "restarts" {
 				// the peer came back: what it received is a duplicate-free subsequence of what was
 				// sent, in order, and the second half of the traffic arrived completely
@@ -497,6 +509,9 @@ func gen(c *harness.C) []harness.Case {
 	}
 	for k := 0; k <= maxK; k += 8 {
 		cases = append(cases, failingCase("restarts", k, "default"))
+	}
+	for _, k := range []int{1, 2, 5, 10, 31} {
+		cases = append(cases, failingCase("starts-late", k, "default"))
 	}
 	cases = append(cases, fullQueueCase())
 	return cases
